@@ -270,7 +270,9 @@ func (this *badgerWAL) CreateSnapshot(idx uint64, confState *raftpb.ConfState, d
 }
 
 func (this *badgerWAL) DeleteGroup() error {
-	return this.reset(nil)
+	// Back to what NewBadgerWAL leaves for a group that was never used: this
+	// object is used again when the replica is added back later.
+	return this.reset(make([]raftpb.Entry, 1))
 }
 
 func (this *badgerWAL) entryPrefix() []byte {
